@@ -161,6 +161,227 @@ def mon_c17(hs, prev, op, ok, trace, cur, known):
     return None
 
 
+TX_HEADS = ('hub', 'cw', 'reward', 'disp', 'reg', 'bond')
+
+
+def is_tx(op):
+    return op.split(' ', 1)[0] in TX_HEADS
+
+
+def mon_rejected_unchanged(hs, prev, op, ok, trace, cur, known):
+    """a rejected transaction changes nothing (every observation line is equal)"""
+    if prev is None or ok or not is_tx(op):
+        return None
+    if prev.lines != cur.lines:
+        for a, b in zip(prev.lines, cur.lines):
+            if a != b:
+                return ('violation', 'rejected transaction changed the state: %r -> %r' % (a, b))
+        return ('violation', 'rejected transaction changed the number of observation lines')
+    return None
+
+
+def _cfg(st, key, idx):
+    v = st.one(key)
+    return v[idx] if v is not None and idx < len(v) else None
+
+
+def mon_c10(hs, prev, op, ok, trace, cur, known):
+    """every accepted privileged message was sent by its designated principal (read from the
+    configuration stored BEFORE the transaction); token addresses never change once set"""
+    t = op.split(' ')
+    if t[0] == 'inst_stsei' and ok:
+        hs['stsei_hub'] = t[2]
+    if t[0] == 'inst_bsei' and ok:
+        hs['bsei_hub'] = t[2]
+    if prev is None:
+        return None
+    # token address immutability across every non-instantiate operation
+    if not t[0].startswith('inst_') and t[0] != 'reset':
+        for idx, nm in ((4, 'bsei'), (5, 'stsei')):
+            a, b = _cfg(prev, 'hub.cfg', idx), _cfg(cur, 'hub.cfg', idx)
+            if a not in (None, '-') and b is not None and a != b:
+                return ('violation', 'hub %s token address changed from %s to %s' % (nm, a, b))
+    if not ok or not is_tx(op):
+        return None
+    # two-step ownership: an accepted nomination makes exactly the nominated address the nominee,
+    # an accepted AcceptOwnership makes exactly the previous nominee the owner
+    own = {'hub': ('hub.newowner', 'hub.cfg'), 'reward': ('rw.newowner', 'rw.cfg'),
+           'disp': ('dp.newowner', 'dp.cfg'), 'reg': ('rg.newowner', 'rg.cfg')}
+    if t[0] in own and len(t) > 2:
+        nk, ck = own[t[0]]
+        if t[2] == 'setowner' and _cfg(cur, nk, 0) != t[3]:
+            return ('violation', '%s: SetOwner{%s} accepted but the stored nominee is %s (an abandoned nominee could still accept)'
+                    % (t[0], t[3], _cfg(cur, nk, 0)))
+        if t[2] == 'accept' and _cfg(cur, ck, 0) != _cfg(prev, nk, 0):
+            return ('violation', '%s: AcceptOwnership accepted but the owner is %s, nominee was %s'
+                    % (t[0], _cfg(cur, ck, 0), _cfg(prev, nk, 0)))
+    exp = None   # set of allowed senders
+    sender = None
+    if t[0] == 'bond':
+        sender = t[2]
+        if t[1] == 'rw':
+            exp = {_cfg(prev, 'hub.cfg', 2)}
+    elif t[0] == 'hub':
+        sender, verb = t[1], t[2]
+        owner = _cfg(prev, 'hub.cfg', 0)
+        if verb in ('params', 'config', 'setowner'):
+            exp = {owner}
+        elif verb == 'accept':
+            exp = {_cfg(prev, 'hub.newowner', 0)}
+        elif verb == 'redelproxy':
+            exp = {_cfg(prev, 'hub.cfg', 3)}
+        elif verb == 'updateglobal':
+            exp = {_cfg(prev, 'hub.cfg', 1), _cfg(prev, 'hub.cfg', 3)}
+        elif verb == 'swaphook':
+            exp = {'hub'}
+        elif verb == 'claimairdrop':
+            exp = {_cfg(prev, 'hub.cfg', 6)}
+        elif verb == 'receive':
+            exp = {_cfg(prev, 'hub.cfg', 4), _cfg(prev, 'hub.cfg', 5)}
+    elif t[0] == 'disp':
+        sender, verb = t[1], t[2]
+        if verb in ('swap', 'dispatch'):
+            exp = {_cfg(prev, 'dp.cfg', 1)}
+        elif verb == 'accept':
+            exp = {_cfg(prev, 'dp.newowner', 0)}
+        else:
+            exp = {_cfg(prev, 'dp.cfg', 0)}
+    elif t[0] == 'reward':
+        sender, verb = t[1], t[2]
+        if verb in ('config', 'setowner', 'swapdenom'):
+            exp = {_cfg(prev, 'rw.cfg', 0)}
+        elif verb == 'accept':
+            exp = {_cfg(prev, 'rw.newowner', 0)}
+        elif verb in ('swap', 'updateindex'):
+            exp = {_cfg(prev, 'hub.cfg', 2)} if _cfg(prev, 'rw.cfg', 1) == 'hub' else set()
+        elif verb in ('inc', 'dec'):
+            exp = {_cfg(prev, 'hub.cfg', 4)} if _cfg(prev, 'rw.cfg', 1) == 'hub' else set()
+    elif t[0] == 'reg':
+        sender, verb = t[1], t[2]
+        if verb in ('remove', 'config', 'setowner'):
+            exp = {_cfg(prev, 'rg.cfg', 0)}
+        elif verb == 'add':
+            exp = {_cfg(prev, 'rg.cfg', 0), _cfg(prev, 'rg.cfg', 1)}
+        elif verb == 'accept':
+            exp = {_cfg(prev, 'rg.newowner', 0)}
+    elif t[0] == 'cw':
+        tok, sender, verb = t[1], t[2], t[3]
+        if verb in ('mint', 'updminter'):
+            exp = {_cfg(prev, 'tok.%s.info' % tok, 1)}
+        elif verb == 'burn':
+            exp = {hs.get(tok + '_hub', 'hub')}
+    if exp is not None:
+        exp.discard(None)
+        exp.discard('-')
+        if sender not in exp:
+            return ('violation', 'privileged operation %r accepted from %s; designated principal(s): %s'
+                    % (op, sender, sorted(exp)))
+    return None
+
+
+def mon_c11(hs, prev, op, ok, trace, cur, known):
+    if prev is None:
+        return None
+    t = op.split(' ')
+    pz = _cfg(prev, 'hub.params', 6)
+    hub_tx = t[0] == 'bond' or t[0] == 'hub'
+    if pz == '1' and hub_tx and ok:
+        verb = t[2] if t[0] == 'hub' else 'bond'
+        if verb not in ('params', 'migrate'):
+            return ('violation', 'hub accepted %r while paused' % op)
+    if t[0] == 'hub' and t[2] == 'params' and ok:
+        if t[1] != _cfg(prev, 'hub.cfg', 0):
+            return ('violation', 'UpdateParams accepted from non-owner %s' % t[1])
+        old = prev.one('hub.oldwait')
+        if old and int(old[0]) > 0 and t[7] in ('-', '0'):
+            return ('violation', 'hub unpaused (paused=%s) while %s legacy wait-list entries remain' % (t[7], old[0]))
+    cpz = _cfg(cur, 'hub.params', 6)
+    if cpz in ('0', '-') and pz == '1':
+        old = cur.one('hub.oldwait')
+        if old and int(old[0]) > 0:
+            return ('violation', 'hub is unpaused while %s legacy wait-list entries remain' % old[0])
+    # pause / unpause cycle: claims, pool totals, batches unchanged
+    keys = ('hub.stored', 'hub.batch', 'hub.hist', 'hub.wait', 'hub.cfg', 'hub.newowner')
+    if t[0] == 'hub' and t[2] == 'params' and ok and t[3:] == ['-', '-', '-', '-', '1', '-']:
+        hs['pause_snapshot'] = {k: prev.all(k) for k in keys}
+        hs['pause_params'] = prev.one('hub.params')[:6]
+    elif 'pause_snapshot' in hs:
+        if t[0].startswith('inst_') or t[0] in ('reset', 'legacy_wait') or (t[0] == 'hub' and t[2] == 'migrate' and ok):
+            hs.pop('pause_snapshot', None)
+        elif t[0] == 'hub' and t[2] == 'params' and ok:
+            snap = hs.pop('pause_snapshot')
+            if t[3:7] == ['-', '-', '-', '-'] and t[8] == '-' and t[7] in ('-', '0'):
+                for k in keys:
+                    if snap[k] != cur.all(k):
+                        return ('violation', 'pause/unpause cycle altered %s' % k)
+                if hs['pause_params'] != cur.one('hub.params')[:6]:
+                    return ('violation', 'pause/unpause cycle altered the parameters')
+    return None
+
+
+def mon_c20(hs, prev, op, ok, trace, cur, known):
+    hp = cur.one('hub.params')
+    if hp is not None:
+        if int(hp[3]) > D:
+            return ('violation', 'stored peg_recovery_fee %s exceeds 1' % hp[3])
+        if int(hp[4]) > D:
+            return ('violation', 'stored er_threshold %s exceeds 1' % hp[4])
+    dc = cur.one('dp.cfg')
+    if dc is not None and int(dc[6]) > D:
+        return ('violation', 'stored krp_keeper_rate %s exceeds 1' % dc[6])
+    if prev is None:
+        return None
+    t = op.split(' ')
+    if not t[0].startswith('inst_') and t[0] != 'reset':
+        a, b = _cfg(prev, 'hub.params', 1), _cfg(cur, 'hub.params', 1)
+        if a is not None and b is not None and a != b:
+            return ('violation', 'underlying_coin_denom changed from %s to %s' % (a, b))
+        a, b = _cfg(prev, 'dp.cfg', 3), _cfg(cur, 'dp.cfg', 3)
+        if a is not None and b is not None and a != b:
+            return ('violation', 'stsei_reward_denom changed from %s to %s' % (a, b))
+    if ok and t[0] == 'hub' and t[2] == 'params':
+        php, chp = prev.one('hub.params'), cur.one('hub.params')
+        # op fields: EPOCH UNBONDING PEGFEE THR PAUSED REWARD_DENOM ; dump: EPOCH UNDERLYING UNBONDING PEGFEE THR REWARD_DENOM PAUSED
+        m = {3: 0, 4: 2, 5: 3, 6: 4, 8: 5}
+        for oi, di in m.items():
+            if t[oi] == '-' and php[di] != chp[di]:
+                return ('violation', 'UpdateParams omitted field #%d but the stored value changed %s -> %s' % (oi - 2, php[di], chp[di]))
+        if chp[6] != t[7]:
+            return ('violation', 'pause flag stored as %s after UpdateParams{paused: %s}' % (chp[6], t[7]))
+    if ok and t[0] == 'disp' and t[2] == 'config':
+        pd, cd = prev.one('dp.cfg'), cur.one('dp.cfg')
+        m = {3: 1, 4: 2, 5: 3, 6: 4, 7: 5, 8: 6}
+        for oi, di in m.items():
+            if t[oi] == '-' and pd[di] != cd[di]:
+                return ('violation', 'dispatcher UpdateConfig omitted a field but the stored value changed %s -> %s' % (pd[di], cd[di]))
+            if t[oi] != '-' and cd[di] != t[oi]:
+                return ('violation', 'dispatcher UpdateConfig{field=%s} stored %s' % (t[oi], cd[di]))
+    if ok and t[0] == 'hub' and t[2] == 'config':
+        pc, cc = prev.one('hub.cfg'), cur.one('hub.cfg')
+        m = {3: 2, 4: 3, 5: 4, 6: 5, 7: 6, 8: 7, 9: 1}
+        for oi, di in m.items():
+            if t[oi] == '-' and pc[di] != cc[di]:
+                return ('violation', 'hub UpdateConfig omitted a field but the stored value changed %s -> %s' % (pc[di], cc[di]))
+    return None
+
+
 HISTORY_MONITORS = {
+    'C10': [mon_c10, mon_rejected_unchanged],
+    'C11': [mon_c11, mon_rejected_unchanged],
     'C17': [mon_c17],
+    'C20': [mon_c20, mon_rejected_unchanged],
+}
+
+
+# ---------------------------------------------------------------- explain-based classifiers
+# cls(disagreement, last_explain_line, full_explain_text) -> message or None
+def cls_c17(dv, last, full):
+    m = re.search(r'insufficient funds: disp (\w+) < (\d+)', last)
+    if m and 'updateglobal' in dv['op']:
+        return 'the dispatcher offered %s %s in its swap but does not hold that much (%s)' % (m.group(2), m.group(1), last[:160])
+    return None
+
+
+EXPLAIN_CLASSIFIERS = {
+    'C17': cls_c17,
 }
